@@ -72,9 +72,61 @@ func attemptOf(m *handler.Message) string {
 	return "none"
 }
 
+type c20Dispatch struct {
+	T       int    `json:"t"`
+	T2      int    `json:"t2"`
+	DeltaMs int64  `json:"delta_ms"`
+	SowSame bool   `json:"sow_same"`
+	Err     string `json:"err"`
+}
+
+// dispatchEvents: the time conversion of each timed MSM type must use that type's own constellation state.
+func dispatchEvents(w *tr.Writer) {
+	rng := tr.Rand(20)
+	timed := []int{1074, 1077, 1084, 1087, 1094, 1097, 1124, 1127}
+	con := func(t int) int { return (t - 1070) / 10 }
+	start := time.Date(2023, 5, 10, 12, 0, 0, 0, time.UTC)
+	base := time.Date(2023, 4, 30, 0, 0, 0, 0, time.UTC)
+	for _, t := range timed {
+		for _, t2 := range timed {
+			if con(t) == con(t2) {
+				continue
+			}
+			ev := c20Dispatch{T: t, T2: t2}
+			late, early := uint(500000000), uint(1000)
+			if con(t) == 1 { // GLONASS: day 5, 11:06:40
+				late = 5<<27 | 40000000
+			}
+			h := handler.New(start, slog.LevelInfo)
+			p := tr.Recover(func() {
+				m1, e1 := h.GetMessage(msmFrame(rng, t, late))
+				_, _ = h.GetMessage(msmFrame(rng, t2, early))
+				m3, e3 := h.GetMessage(msmFrame(rng, t, late+1000))
+				if e1 != nil || e3 != nil || m1 == nil || m3 == nil {
+					ev.Err = "conversion failed"
+					return
+				}
+				a, ok1 := parseShown(m1.SentAt, "Time ", base)
+				b, ok3 := parseShown(m3.SentAt, "Time ", base)
+				if !ok1 || !ok3 {
+					ev.Err = "time not shown"
+					return
+				}
+				ev.DeltaMs = (b[0]-a[0])*weekMs + b[1] - a[1]
+				ev.SowSame = m1.StartOfWeek == m3.StartOfWeek
+			})
+			if p != "" {
+				ev.Err = "panic: " + p
+			}
+			w.Emit(ev)
+		}
+	}
+}
+
 func c20(args []string) {
 	w := tr.NewWriter(args[0])
 	defer w.Close()
+	defer dispatchEvents(w)
 	start := time.Date(2023, 5, 10, 12, 0, 0, 0, time.UTC)
 	for _, level := range []slog.Level{slog.LevelDebug} {
 		for t := -2; t <= 4095; t++ {
